@@ -47,10 +47,24 @@ CHECKS["C02"] = dict(
          "the statement's domain, the code-shaped model of the __set__ chains accepts exactly when the documented rules "
          "(Fields/Doc.v, transcribed from the docstrings) do, with the same normal form, and every rejection is a "
          "TypeError/ValueError. The model is tied to typedpy by differential correspondence evaluated in Coq, and the "
-         "documented rules are evaluated on the implementation's observed behaviour to find replays.",
+         "documented rules are evaluated on the implementation's observed behaviour to find replays. "
+         "Two further models with their own theorems and streams: (a) Enum fields over enum classes WITH A MIX-IN TYPE "
+         "(str/int mix-in, IntEnum, StrEnum; Fields/EnumMixin.v): C02_enum_mixin_agree / _error_class hold for every class, "
+         "mix-in, declared subset and candidate free of the ==/name confusions, each confusion is refuted by a witness "
+         "(listed findings C02-mixin-eq-confusion, C02-mixin-name-confusion), and the translation of Enum._validate/__set__ "
+         "regenerated from the source over that universe equals the model (C02_src_enum_mixin); (b) fields over ARBITRARY "
+         "classes (Field[Foo], Array[Foo], ...; Fields/ClassField.v): by induction over the HISTORY of earlier declarations a "
+         "declaration accepts exactly the instances of its own class whenever the registry key separates class objects "
+         "(C02_classfield_agree), instantiated with the key generated from the current FieldMeta.__getitem__ "
+         "(C02_src_classfield_today; a qualified-name key and a metaclass __eq__ are refuted). Both are exercised by "
+         "deterministic lattices (class x declared subset x candidate x context; scenario x history x class x form x value) "
+         "whose observed outcomes are judged by the documented rule and compared with the model inside Coq.",
     design="DESIGN.md §6 C02",
     note="Trusted: Coq kernel + vm_compute; hand-written model Fields/SetChain.v and spec Fields/Doc.v; re.match as an oracle; "
-         "float(int) exact only for |z|<=2^53; Decimal/date fields, StructureReference, EnumString not yet in the model.",
+         "float(int) exact only for |z|<=2^53; Decimal/date fields, StructureReference, EnumString not yet in the model. "
+         "The mix-in enum model and the arbitrary-class model are separate universes (Fields/EnumMixin.v, Fields/ClassField.v), not "
+         "cases of vset: nesting of such fields is covered by the harness contexts (element extracted and judged by the same rule), "
+         "not by a theorem; Flag enums, create_typed_field with a validate_func and bare class annotations are not modelled.",
     technique="Coq proof (structural induction over field declarations) + model/implementation correspondence in vm_compute")
 
 CHECKS["C19"] = dict(
